@@ -68,6 +68,8 @@ class LogixController:
         self.status_hook = None  # callable(req, info) -> None | (status, ext words, data): status injection (C13)
         self.force_tfrag = 0  # >0: every template read returns at most this many bytes
         self.force_page = 0  # >0: every symbol page holds at most this many entries
+        self.empty_frag_at = ()  # ordinals (1-based, see rfrag_count) of Read Tag Fragmented replies answered "partial" with no value bytes
+        self.rfrag_count = 0
 
     def attach(self, target):
         self.target = target
@@ -421,6 +423,10 @@ class LogixController:
                 c = self.choose("rfrag", f"rfrag@{name}:{off}", len(alts) + 1, 0)
                 if c:
                     fit = alts[c - 1]
+            if svc == 0x52:
+                self.rfrag_count += 1
+                if self.rfrag_count in self.empty_frag_at and rem:
+                    fit = 0  # legal if unusual: "more data follows" with only the type code; the client asks again from the same offset
             chunk = full[off : off + fit]
             self.svc_log.append(("read" if svc == 0x4C else "readfrag", name, r.offset, cnt, off, len(chunk)))
             if off + len(chunk) < total:
